@@ -1,16 +1,59 @@
 (** Property C01 -- statements only.  Every theorem is closed by [exact] of a lemma of the development and
     followed by [Print Assumptions]. *)
-From Coq Require Import ZArith.
+From Coq Require Import ZArith List.
 From OCI Require Import Machine Checkers.
-From OCI.proofs Require Import ArithOk Trace InvKnown ChkKnown IterBase ChkIter ChkAll.
+From OCI.proofs Require Import ArithOk Trace InvKnown ChkKnown IterBase ChkIter ChkAll IterLedger Owning IterQuiet.
+From OCI.proofs Require Import GapFree.
 Open Scope N_scope.
 
-Check all_C01 : forall e, src_env e -> forall progs, wf_progs progs -> forall sched,
+Check all_C01 : forall e, src_env e -> fused e -> forall progs, wf_progs progs -> forall sched,
   nowrap (c_labels (exec e (init progs) sched)) ->
   check_prop 1 e (c_trace (exec e (init progs) sched)) (c_labels (exec e (init progs) sched)) = true.
-Theorem c01_exactly_once : forall e, src_env e -> forall progs, wf_progs progs -> forall sched,
+Theorem c01_exactly_once : forall e, src_env e -> fused e -> forall progs, wf_progs progs -> forall sched,
   nowrap (c_labels (exec e (init progs) sched)) ->
   check_prop 1 e (c_trace (exec e (init progs) sched)) (c_labels (exec e (init progs) sched)) = true.
 Proof. exact all_C01. Qed.
 Print Assumptions c01_exactly_once.
 
+(** every wrapped iterator, fused or not, owning its elements or not: no position is moved out to two
+    callers.  (The checker [chk_C01_nodup] itself accounts for the elements of a chunk that the caller left
+    in it by the INDEX of the chunk and for the others by their VALUE; indices and values differ once a
+    wrapped iterator that is not fused has answered None prematurely, and the checker then objects to runs
+    on which nothing is delivered twice: [Examples.gap_breaks_the_mixed_accounting].  The no-loss half is
+    false for such an iterator: the end is reported while elements remain, [Examples.gap_hypotheses_hold].) *)
+Theorem c01_no_duplicate_any_iterator : forall e, iter_env e -> forall progs, wf_progs progs -> forall sched,
+  nowrap (c_labels (exec e (init progs) sched)) ->
+  pairwise_disj (taken_all e (c_trace (exec e (init progs) sched))) = true.
+Proof. exact iter_taken_nodup. Qed.
+Print Assumptions c01_no_duplicate_any_iterator.
+
+(** the generalised no-loss half, for the wrapped iterators that own their elements: at every quiescent
+    point at which no thread keeps a buffered iterator, the positions moved out to callers and the positions
+    destroyed tile [0, cursor) -- everything the wrapped iterator has ever yielded is delivered (or
+    destroyed) exactly once, whatever it answered in between *)
+Theorem c01_yielded_exactly_once_any_iterator : forall e, iter_env e -> e_owning e = true -> forall progs, wf_progs progs -> forall sched,
+  nowrap (c_labels (exec e (init progs) sched)) ->
+  n_pending (c_trace (exec e (init progs) sched)) = 0%Z ->
+  (forall t, In t (nodup Nat.eq_dec sched) -> t_buf (c_pool (exec e (init progs) sched) t) = None) ->
+  tiles (s_cur (c_sh (exec e (init progs) sched)))
+        (taken_all e (c_trace (exec e (init progs) sched)) ++ dropped_all (c_trace (exec e (init progs) sched))) = true.
+Proof. exact iter_yielded_exactly_once. Qed.
+Print Assumptions c01_yielded_exactly_once_any_iterator.
+
+(** the count version for every wrapped iterator, owning or not: at every quiescent point of a run without
+    panics, as many elements have been delivered as the wrapped iterator has yielded *)
+Theorem c01_delivered_count_any_iterator : forall e, iter_env e -> forall progs, wf_progs progs -> forall sched,
+  nowrap (c_labels (exec e (init progs) sched)) ->
+  n_pending (c_trace (exec e (init progs) sched)) = 0%Z ->
+  has_panic (c_trace (exec e (init progs) sched)) = false ->
+  iv_total (cov e (c_trace (exec e (init progs) sched))) = s_cur (c_sh (exec e (init progs) sched)).
+Proof. exact iter_delivered_count. Qed.
+Print Assumptions c01_delivered_count_any_iterator.
+
+(** a wrapped iterator that is not fused: exactly-once delivery in full, on every run up to (and including) the state in which the wrapped next() first answers None although elements remain -- [gap_free e n]: none of the first [n] calls of the wrapped next() is such an answer *)
+Theorem c01_exactly_once_until_first_gap : forall e, iter_env e -> forall progs, wf_progs progs -> forall sched,
+  nowrap (c_labels (exec e (init progs) sched)) ->
+  gap_free e (s_calls (c_sh (exec e (init progs) sched))) ->
+  check_prop 1 e (c_trace (exec e (init progs) sched)) (c_labels (exec e (init progs) sched)) = true.
+Proof. exact iter_C01_until_gap. Qed.
+Print Assumptions c01_exactly_once_until_first_gap.
